@@ -103,6 +103,15 @@ def okSame (v : Nat) (c : Int) : Bool → List Action → Bool
   | w, .acq _ :: rest => okSame v c w rest
   | w, .rel _ :: rest => okSame v c w rest
 
+/-- (D) the call never reads `v` (write-only variable: nobody can observe it). -/
+def noRead (v : Nat) : List Action → Bool
+  | [] => true
+  | .read v' :: rest => v' != v && noRead v rest
+  | .incr v' :: rest => v' != v && noRead v rest
+  | .write _ _ :: rest => noRead v rest
+  | .acq _ :: rest => noRead v rest
+  | .rel _ :: rest => noRead v rest
+
 def varsOf : List Action → List Nat
   | [] => []
   | .read v :: rest => v :: varsOf rest
@@ -127,8 +136,10 @@ def kindB (calls : List (List Action)) (v : Nat) : Bool :=
 def kindC (calls : List (List Action)) (v : Nat) : Bool :=
   (calls.flatMap (valuesOf v)).any fun c => calls.all (okSame v c false)
 
+def kindD (calls : List (List Action)) (v : Nat) : Bool := calls.all (noRead v)
+
 def disciplinedVar (calls : List (List Action)) (v : Nat) : Bool :=
-  kindA calls v || kindB calls v || kindC calls v
+  kindA calls v || kindB calls v || kindC calls v || kindD calls v
 
 /-- The decidable discipline evaluated by the driver on the recorded traces. -/
 def disciplined (calls : List (List Action)) : Bool :=
